@@ -1,6 +1,7 @@
 //! unit: u02b
-//! properties: C02 C10
+//! properties: C02 C10 C07
 //! note: RAA blockers (PeerState::actions_blocking_raa_monitor_updates): registering a blocker on a channel appends it to that channel's list and never drops a blocker already registered (for this or any other channel) -- the monitor update of the downstream peer's next revoke_and_ack stays held until every upstream preimage it depends on is durably persisted
+//! trusted: R15/R18 (deep slice of the function-local macro scan_commitment! in is_resolving_htlc_output): the fields of the HTLCSpendConfirmation event pushed when a confirmed spend needs no upstream action, verbatim as a function of the values in scope (monitor skeleton with both CSV delays)
 //! trusted: R15 (deep slice): from_channel_manager_data: the body of `for prev_hop in prev_htlcs` inside the filter_map closure that collects pending_claims_to_replay, verbatim as a function of one previous hop and the variables in scope at that point (the loop's `continue` and the closure's `fail_read = true; return None` are returned as the values Skip / FailRead); channel_monitors is a stub map answering from a ghost map, a monitor answers its ids and the number of its claimable balances
 //! trusted: R15 (deep slice): ChannelManager::process_pending_monitor_events: the body of the MonitorEvent::HTLCEvent arm (the logger construction is dropped), verbatim as a function of the event and the channel it came from; R5: the manager is a stub whose claim_funds_internal / fail_htlc_backwards_internal record their arguments in a ghost log (`&self` written `&mut self`); HTLCSource::failure_type and SentHTLCId::from_source are uninterpreted functions of the source
 //! assume: htlc_value_satoshis is at most the 21e6 BTC supply (the source multiplies by 1000 unchecked)
@@ -225,6 +226,31 @@ impl PartialEq for PaymentHash { #[verifier::external_body] fn eq(&self, o: &Pay
 //@with
     payment_preimage: None, payment_hash, htlc_value_satoshis: amount_msat / 1000, })); } } else {
 //@end
+// ---- a confirmed spend of an HTLC output that needs no upstream action is remembered with the preimage it revealed and, for our own HTLC-Success, the delay of OUR outputs ----
+pub struct CounterpartyParams { pub on_counterparty_tx_csv: u16 }
+pub struct SpendMonitor { pub on_holder_tx_csv: u16, pub counterparty_commitment_params: CounterpartyParams }
+pub struct SpentHTLC { pub offered: bool, pub amount_msat: u64, pub transaction_output_index: Option<u32> }
+pub struct SpendingInput { pub previous_output: PrevOut }
+pub struct PrevOut { pub vout: u32 }
+impl SpendMonitor {
+//@extract lightning/src/chain/channelmonitor.rs :: impl ChannelMonitorImpl :: fn is_resolving_htlc_output
+//@metavars
+//@slice R15
+    let outbound_htlc = $ob:seq; self.onchain_events_awaiting_threshold_conf.push(OnchainEventEntry { $hdr:any event: OnchainEvent::HTLCSpendConfirmation { commitment_tx_output_idx: $idx:seq, preimage: $pre:seq, on_to_local_output_csv: $csv:seq, }, });
+//@with
+    fn htlc_spend_confirmation_fields(&self, input: &SpendingInput, htlc_output: &SpentHTLC, m_holder_tx: bool, accepted_preimage_claim: bool, offered_preimage_claim: bool, payment_preimage: PaymentPreimage) -> (u32, Option<PaymentPreimage>, Option<u16>) {
+        let outbound_htlc = $ob; ($idx, $pre, $csv) }
+//@ret r
+//@ensures P C07 a-confirmed-htlc-spend-is-remembered-under-its-output-with-the-preimage-it-revealed-and-our-own-htlc-success-keeps-the-balance-until-the-delay-of-our-own-outputs-has-passed
+    r.0 == input.previous_output.vout,
+    r.1 == (if accepted_preimage_claim || offered_preimage_claim { Some(payment_preimage) } else { None }),
+    r.2 == (if accepted_preimage_claim && m_holder_tx != htlc_output.offered { Some(self.on_holder_tx_csv) } else { None }),
+//@mutant our_htlc_success_waits_for_the_counterpartys_delay
+    Some(self.on_holder_tx_csv) } else { None },
+//@with
+    Some(self.counterparty_commitment_params.on_counterparty_tx_csv) } else { None },
+//@end
+}
 // ---- ChannelManager::process_pending_monitor_events: what the manager does with an on-chain resolution reported by the downstream monitor ----
 #[derive(Clone, Copy)] pub struct PublicKey { pub id: u64 }
 #[derive(Clone, Copy)] pub struct ChannelId { pub id: u64 }
